@@ -79,7 +79,9 @@ func (c *TrackSetController) Add(op *TrackOp) {
 
 func (c *TrackSetController) Distribute(op *TrackOp) {
 	for i := range c.set.Len() {
-		c.set.Add(i, op)
+		// every track receives its own copy: each track folds its own pending delay into it
+		x := *op
+		c.set.Get(i).Add(&x)
 	}
 }
 
